@@ -121,11 +121,19 @@ def run_case(case):
             allv += r["violations"]
             sig.append(r["sig"])
         return {"status": "ok", "violations": allv, "nontrivial": True, "sig": core.jhash(sig), "info": {"transient_steps": 3}}
+    damped = kw.get("alpha", 1.0) < 1.0
+    if damped:
+        # with the solver's default tolerances: the imbalance has to stay at round-off level, not at tolerance level
+        kw = dict(opts, max_iter_hyd=200)
     try:
         pp.pipeflow(net, **kw)
     except Exception as e:
         return {"status": "raised:" + type(e).__name__, "violations": []}
-    return check_net(net, case)
+    r = check_net(net, case)
+    if damped:
+        for v in r["violations"]:
+            v["tags"]["damped"] = True
+    return r
 
 
 def check_net(net, case):
